@@ -228,3 +228,12 @@ PROPS["C18"]["extra"] = [(_INSTR, ["syst_err_next", "syst_err_next_empty", "syst
 PROPS["C18"]["domains"] = PROPS["C18"]["domains"] + [{"name": "p21", "cfgs": ["A"], "keep": "P,H,W"}]
 PROPS["C06"]["extra"] = [(_INSTR, ["idn_fields", "opcq_answers_1", "tst_answers_0"])]
 PROPS["C06"]["domains"] = PROPS["C06"]["domains"] + [{"name": "p21", "cfgs": ["A"], "keep": "P,H,W,F"}]
+
+# C15 also speaks about SCPI_ParamCopyText: the parameter domain runs it with exact-size heap buffers of 0, 1, 3, 16 bytes
+# (a copy length beyond the capacity is reported as X...:OVER<n> and differs from the model; a write beyond it is an ASan fault)
+PROPS["C15"]["domains"] = PROPS["C15"]["domains"] + [{"name": "p05", "cfgs": ["A"], "keep": "P,H,X"}]
+# C18 in the static-heap build: the texts the error query answers with come out of the circular heap; the heap histories
+# (overflow roll-backs, wrapped texts, heap sizes that are not powers of two) are part of its check, with the clause that
+# says "the text is not the one pushed with this error"
+PROPS["C18"]["domains"] = PROPS["C18"]["domains"] + [{"name": "heap", "cfgs": ["B"]}]
+PROPS["C18"]["clauses"] = PROPS["C18"]["clauses"] + ["C20.text_not_intact"]
